@@ -127,3 +127,16 @@ pub fn root_callbacks(x: u64, s: i32) -> u64 {
 pub fn ctl_wrapping_limb(a: u64, b: u64, carry: bool) -> u64 {
     a.wrapping_add(b).wrapping_add(carry as u64)
 }
+/// C12: carry component of an overflowing addition dropped / kept
+pub fn ctl_dropped_carry(a: u64, b: u64) -> u64 {
+    let (v, _) = a.overflowing_add(b);
+    v
+}
+pub fn ok_used_carry(a: u64, b: u64) -> (u64, u64) {
+    let r = a.overflowing_add(b);
+    (r.0, r.1 as u64)
+}
+pub fn root_carry(a: u64, b: u64) -> u64 {
+    let r = ok_used_carry(a, b);
+    ctl_dropped_carry(a, b) ^ r.0 ^ r.1
+}
